@@ -242,7 +242,7 @@ func run(b objstore.Bucket, op Op) (answer string) {
 	return "?"
 }
 
-func ops(c Case) []Op {
+func ops(c Case, thorough bool) []Op {
 	var out []Op
 	// offsets up to the first one that lies a whole subrange past the (rounded-up) end of the object
 	maxOff := int64((c.Size+c.SS-1)/c.SS*c.SS + c.SS)
@@ -265,8 +265,11 @@ func ops(c Case) []Op {
 		Op{Kind: "Get", Missing: true, Buf: 512},
 		Op{Kind: "Exists"}, Op{Kind: "Exists", Missing: true},
 		Op{Kind: "Attributes"}, Op{Kind: "Attributes", Missing: true},
-		Op{Kind: "Iter", Dir: ""}, Op{Kind: "Iter", Dir: "", Rec: true}, Op{Kind: "Iter", Dir: "d/"},
+		Op{Kind: "Iter", Dir: ""}, Op{Kind: "Iter", Dir: "", Rec: true},
 	)
+	if thorough {
+		out = append(out, Op{Kind: "Iter", Dir: "d/"}) // one more independent cache entry: doubles the state space
+	}
 	return out
 }
 
@@ -318,7 +321,7 @@ func TestCheck(t *testing.T) {
 	defer r.Finish()
 	r.Rule("per configuration (object size, subrange size, MaxSubRequests, MaxCacheableSize): BFS to closure over cache contents; operations = GetRange(off 0..roundup(size,ss)+ss, " +
 		"len 1..size+2, read buffer 1|512) + pass-through GetRange forms + Get (full with buffer 1|512, partial) + Exists + Attributes on the existing and a missing object + " +
-		"Iter (root, root recursive, dir); environment = evict any one entry; non-trivial = distinct (configuration, state) with at least one but not all sub-ranges " +
+		"Iter (root, root recursive; thorough also a directory); environment = evict any one entry; non-trivial = distinct (configuration, state) with at least one but not all sub-ranges " +
 		"of the object cached (partial hits); states/transitions/traces are counted by the search")
 	r.Assume("Objects never change; the underlying bucket is objstore.InMemBucket; one cache instance serves all operation configs (as SetCacheImplementation does); TTLs are 24h and the "+
 		"harness cache ignores them (loss of entries is modelled by the eviction transitions).",
@@ -367,7 +370,7 @@ func TestCheck(t *testing.T) {
 			return
 		}
 		r.Sample(c)
-		all := ops(c)
+		all := ops(c, r.Thorough())
 		nsub := (c.Size + c.SS - 1) / c.SS
 		type node struct {
 			st    map[string]string
